@@ -11,7 +11,8 @@
      wf_topic / wf_dwriter / wf_dreader / wf_participant   what the Rust types guarantee, plus
                         consistency of the fields that are NOT transmitted
      TI, ti_w, ti_dec   TypeInformation and its XCDR2 codec: abstract (property C09) *)
-From DustDDS Require Import Base.Machine Disc.PlModel Disc.DiscModel Disc.PlProofs Disc.DiscProofs Disc.DiscTotProofs.
+From DustDDS Require Import Base.Machine Disc.PlModel Disc.DiscModel Disc.DiscCorr Disc.PlProofs Disc.DiscProofs
+  Disc.DiscTotProofs Disc.DiscCorrProofs.
 Open Scope Z_scope.
 
 (* ------------------------------------------------------------------ the wire format *)
@@ -150,6 +151,11 @@ Theorem C13_limited_max_refutes_roundtrip :
                   /\ rs_ms (t_resource_limits unit r') = Unlimited /\ r' <> r.
 Proof. exact (ex_intro _ witness_topic topic_limited_max_witness). Qed.
 
+(* ------------------------------------------------------------------ the oracle of the correspondence run *)
+(* the comparison applied to the implementation's decoded values accepts equal values only *)
+Theorem C13_oracle_sound : forall a b : value, value_eqb a b = true -> a = b.
+Proof. exact value_eqb_eq. Qed.
+
 (* ------------------------------------------------------------------ non-vacuity *)
 (* the hypotheses are met right at the 16-bit boundary: 65528 bytes of user data fit, 65529 do not *)
 Example C13_nonvacuous_boundary :
@@ -183,3 +189,4 @@ Print Assumptions C13_decode_total_participant_unless_zero_length_tag.
 Print Assumptions C13_decode_total_participant_refuted.
 Print Assumptions C13_u16_length_refutes_roundtrip.
 Print Assumptions C13_limited_max_refutes_roundtrip.
+Print Assumptions C13_oracle_sound.
